@@ -1,5 +1,6 @@
 //! Per-property simulations and their batch configurations.
 
+pub mod c16;
 #[cfg(feature = "reg")]
 pub mod c20;
 
@@ -26,6 +27,7 @@ pub fn batch_cfg(prop: &str, tier: Tier, seed: u64) -> BatchCfg {
         assumptions: Vec::new(),
         components: json!({}),
         extra_env: Vec::new(),
+        crashes_are_violations: true,
     };
     match prop {
         "C20" => {
@@ -41,6 +43,24 @@ pub fn batch_cfg(prop: &str, tier: Tier, seed: u64) -> BatchCfg {
             cfg.components = json!({
                 "real": ["wac_resolver::RegistryPackageResolver::{new,resolve} (registry.rs, unmodified body)", "futures::stream::FuturesUnordered", "indexmap", "std::fs::read of downloaded content (tmpfs)", "warg_protocol::registry::PackageName", "semver"],
                 "stub": ["warg_client::Client + Warg server + HTTP (reference registry model behind seam R)", "tokio task scheduler (simulator's discrete-event executor; which ready task is polled next and which response arrives next are tape draws)", "clock (simulated microseconds; no real time is read)"],
+            });
+        }
+        "C16" => {
+            cfg.arena_sensitive = true;
+            cfg.crashes_are_violations = false;
+            cfg.runs = if quick { 4_000 } else { 200_000 };
+            cfg.chunk = 64;
+            cfg.sample_every = cfg.runs / 4;
+            cfg.recheck = if quick { 32 } else { 256 };
+            cfg.rule = "Seeded simulation runs: each run decodes one workload from the choice tape (G: a graph-API history of up to 30/40 operations over a 19-package component library, including type definitions in shuffled order; D: a generated WAC document; S: one of the .wac files shipped in the repository with its dependency tree) and executes it in 3 (quick) / 6 (thorough) simulated processes = fresh OS threads whose std RandomState keys come from the interposed getrandom under a hash seed drawn from the tape and whose id-arena counter is aligned by (run, process); each process executes the workload twice and encodes a clone of the graph. All observation vectors (operation results, imports listing, DOT text, encodings with dependencies defined and imported, clone encodings, AST JSON, printed text, package keys, rendered diagnostics) must be identical. Every run is non-trivial (several processes with distinct hash schedules); distinct = distinct SHA-256 digests of the run's event log (workload description + digest of the observation vector).".into();
+            cfg.assumptions = vec![
+                "Hash iteration order is the only hidden scheduler in these paths; it is controlled through std's weak getrandom symbol (seam H) and the id-arena counter (seam A). ASLR-dependent behaviour would not be reproduced by a replay and is reported as such.".into(),
+                "Packages of shipped documents are loaded once per worker through the real FileSystemPackageResolver under a fixed hash seed; the per-process pipeline starts at Document::parse.".into(),
+                "A clean batch is evidence over the sampled workloads and hash schedules, not a proof.".into(),
+            ];
+            cfg.components = json!({
+                "real": ["wac-parser (lexer, parser, printer, resolution)", "wac-graph (graph API, encoder)", "wac-types (package decoding, aggregator, checker)", "wac-resolver (packages discovery, fs resolver at load time)", "wasmparser / wasm-encoder / wit-parser / wit-component", "std HashMap/HashSet (real SipHash, keys chosen by the simulator)"],
+                "stub": ["kernel getrandom (interposed: keys are a function of the simulated process's hash seed)", "process boundary (a simulated process is a fresh OS thread, joined before the next one starts)"],
             });
         }
         _ => {}
